@@ -385,7 +385,7 @@ static uint32_t read_instruction(
         case JINT_S: {
             if (janet_tuple_length(argt) != 2)
                 janet_asm_error(a, "expected 1 argument: (op, slot)");
-            instr |= doarg(a, JANET_OAT_SLOT, 1, 2, 0, argt[1]);
+            instr |= doarg(a, JANET_OAT_SLOT, 1, 3, 0, argt[1]);
             break;
         }
         case JINT_L: {
